@@ -145,6 +145,7 @@ func c15b(c *Ctx) {
 	}
 	c.requireGate(f.Name+" uploads after authentication", f, cs, OutNil, ups, "tiles written only after the package hashed to a proven subtree of the checkpoint")
 	c.requireGate(f.Name+" frontier after authentication", f, cs, OutNil, stores, "frontier advanced only after the package was authenticated")
+	c.requireGate(f.Name+" success after authentication", f, cs, OutNil, successReturns(f), "a package is reported as accepted only after it hashed to a proven subtree of the checkpoint (later packages build on its record hashes)")
 	// frontier after all uploads of this package: every upload's failure returns
 	for _, u := range ups {
 		ok, how := errDiscipline(u)
@@ -507,6 +508,44 @@ func c15e(c *Ctx) {
 	if len(aligned) == 0 || len(exists) == 0 {
 		c.Unk(f.Name, "aligned / already-present shortcuts not recognised")
 		return
+	}
+	// the object whose presence means "already done" is written last
+	for _, ft := range fet {
+		_, _, _, tested := OutcomeEdges(ft)
+		if !tested {
+			continue
+		}
+		pk := argByName(info, ft.Call, "key")
+		var probe *Site
+		for i, u := range ups {
+			if uk := argByName(info, u.Call, "key"); pk != nil && uk != nil && f.SameValue(pk, uk) {
+				probe = &ups[i]
+			}
+		}
+		inst := f.Name + " probe object written last"
+		if probe == nil {
+			c.Bad(inst, ft.Pos(), "the object whose presence short-cuts ensureCutTiles is not one of the objects it uploads")
+			bad = true
+			continue
+		}
+		okLast := true
+		for _, u := range ups {
+			if u.P == probe.P {
+				continue
+			}
+			nilE, _, _, ok := OutcomeEdges(u)
+			if !ok {
+				continue
+			}
+			if pt, _ := g.ReachableFromEntry(Cut{Edges: nilE}, atSite(*probe)); pt != nil {
+				c.Bad(inst, probe.Pos(), fmt.Sprintf("the tile whose presence means \"cut tiles already stored\" can be uploaded before the upload at %s succeeded: a failure in between leaves the probe present and the other tile missing for good", u.Pos()))
+				okLast = false
+				bad = true
+			}
+		}
+		if okLast {
+			c.add(Result{Instance: inst, Verdict: Discharged, Evals: len(ups) - 1, Sites: []string{probe.Pos()}, Detail: "the upload of the probed key is unreachable unless every other cut-tile upload succeeded"})
+		}
 	}
 	if !bad {
 		c.add(Result{Instance: f.Name, Verdict: Discharged, Evals: len(ups), Sites: sitePositions(ups), Detail: "nil only if aligned, cut hash tile present, or after both uploads succeeded"})
